@@ -274,6 +274,24 @@ pub fn run(ctx: &mut Ctx) {
                         }
                         s.c = vec![target, sub, pat];
                     }
+                    7 => {
+                        // pattern and substitute are PRINT TWINS (same kind, same printed text, different
+                        // value), as atoms or inside small lists; the target holds the pattern
+                        let f = *r.pick(&[0.25f32, 0.5, 1.5, -2.75, 0.123]);
+                        let g = f + *r.pick(&[0.0004f32, 0.0001, -0.0003]);
+                        let (pat, sub) = if r.bool() {
+                            (SItem::Float(fb(f)), SItem::Float(fb(g)))
+                        } else {
+                            (SItem::List(vec![SItem::Float(fb(f)), SItem::Int(1)]), SItem::List(vec![SItem::Float(fb(g)), SItem::Int(1)]))
+                        };
+                        let mut target = t.clone();
+                        if let SItem::List(v) = &mut target {
+                            let at = r.below(v.len() + 1);
+                            v.insert(at, pat.clone());
+                            v.push(SItem::List(vec![SItem::Int(3), pat.clone()]));
+                        }
+                        s.c = vec![target, sub, pat];
+                    }
                     6 => {
                         // the substitute contains the pattern: no second pass over the replacement
                         let sub = SItem::List(vec![w.clone(), u.clone(), SItem::List(vec![u.clone()])]);
